@@ -225,9 +225,19 @@ impl ProtocolRequestBuilder for crate::Request {
     }
 }
 
-impl From<HttpResponse> for crate::ResponseAsync {
-    fn from(effect_response: HttpResponse) -> Self {
-        let mut res = http_types::Response::new(effect_response.status);
+impl crate::ResponseAsync {
+    /// Converts the response the shell reported. A response which cannot be represented
+    /// (a status code unknown to `http_types::StatusCode`) is an error value, since the shell
+    /// only relays what some server sent and must not be able to panic the core.
+    pub(crate) fn from_protocol(effect_response: HttpResponse) -> crate::Result<Self> {
+        let status = http_types::StatusCode::try_from(effect_response.status).map_err(|_| {
+            HttpError::Io(format!(
+                "unsupported HTTP status code {}",
+                effect_response.status
+            ))
+        })?;
+
+        let mut res = http_types::Response::new(status);
         for header in effect_response.headers {
             res.append_header(header.name.as_str(), header.value);
         }
@@ -240,7 +250,16 @@ impl From<HttpResponse> for crate::ResponseAsync {
             res.remove_header(CONTENT_TYPE);
         }
 
-        crate::ResponseAsync::new(res)
+        Ok(crate::ResponseAsync::new(res))
+    }
+}
+
+impl From<HttpResponse> for crate::ResponseAsync {
+    /// # Panics
+    ///
+    /// Panics if the response cannot be represented, see [`ResponseAsync::from_protocol`].
+    fn from(effect_response: HttpResponse) -> Self {
+        Self::from_protocol(effect_response).expect("should be a representable HTTP response")
     }
 }
 
